@@ -61,8 +61,9 @@ impl Rng {
         (0..n).map(|_| self.next() as u8).collect()
     }
     pub fn word(&mut self) -> String {
-        const W: [&str; 12] = [
+        const W: [&str; 20] = [
             "ab", "cd", "xyz", "q", "lorem", "ipsum", "7up", "Zed", "a b", "é", "", "under_score",
+            "quo\"te", "back\\slash", "new\nline", "tab\t", "\u{4e16}\u{754c}", "{\"json\":1}", "null", "ctl\u{1}",
         ];
         W[self.below(W.len() as u64) as usize].to_string()
     }
